@@ -336,6 +336,7 @@ def _execute(scn, ctx, store, clock, rng):
                 r = call(lookup, [lon], [lat], [mag])
                 w = p.get('where', 'interior')
                 ctx.count('lookup:' + w + ':' + p.get('mwhere', 'interior'))
+                ctx.log('lookup', oi, lon, lat, mag, r[0], r[1] if r[0] != 'ok' else float(r[1][0]))
                 if c.get('flag', 1) == 0:
                     if r[0] == 'ok':
                         ctx.violate('C11', 'lookup', 'flag0-cell-inside-region:%s' % w,
@@ -433,6 +434,7 @@ def _execute(scn, ctx, store, clock, rng):
             if hexf(numpy.array(fc.data)) != before:
                 ctx.violate('C11', 'scale_history', '%s:modified-forecast-data' % kind, {'op': oi})
                 return
+        ctx.log('op', oi, kind, numpy.array(fc.data))
         if not check_data(oi, kind):
             return
         ctx.state((kind, len(factor['alts'])))
